@@ -1,5 +1,13 @@
 /* C14 harness: histories (prefix activity, reset, reference build) through the real runtime API of /repo's current
  * sources and through the JSON parser generated from gen/c14_schema.fbs.  Protocol: see reset_ops.h. */
+#include <stdlib.h>
+#include "ep_alloc.h"
+long long ep_live, ep_errors;
+void *ep_alloc(size_t n) { void *p = malloc(n ? n : 1); if (p) ++ep_live; return p; }
+void ep_free(void *p) { if (p) { if (--ep_live < 0) ++ep_errors; } free(p); }
+#define RO_E_LIVE (ep_live * 1000 + ep_errors)
+/* after flatcc_builder_clear / flatcc_emitter_clear at the end of every history: pages still live */
+#define RO_AFTER_CLOSE() printf("EPLIVE=%lld ", ep_live * 1000 + ep_errors)
 #include "reset_ops.h"
 
 int main(void)
@@ -15,7 +23,9 @@ int main(void)
             while (*p && *p != ' ' && *p != '\n' && *p != '\r') ++p;
             if (*p) *p++ = 0;
         }
+        ep_live = 0; ep_errors = 0;
         ro_run_line(tok, (int)n);
+
     }
     free(tok);
     return 0;
